@@ -1,0 +1,133 @@
+//go:build verif
+
+package fasthttp
+
+// C05, second part: the setters that go through the multi-valued storage layer. Each function below is verified
+// (exact mode) so that every call it makes to the storage layer, or to another setter, satisfies the callee's
+// precondition "key and value are CR/LF-free". Checked by /verif/gocv (comment-only; compiled to nothing).
+
+// header.setNonSpecial stores what it is given: callers must hand it CR/LF-free bytes.
+//@ func header.setNonSpecial
+//@   property C05
+//@   requires[clean-key] crlffree(key, len(key))
+//@   requires[clean-value] crlffree(value, len(value))
+//@   modifies h.h
+
+// setSpecialHeader dispatches on the name; its Set-Cookie / Connection / Trailer branches store the value as given.
+// The bodies use []argsKV element pointers and are not verified here (trusted); the modifies lists were read off the code.
+//@ func ResponseHeader.setSpecialHeader
+//@   trusted
+//@   requires[clean-key] crlffree(key, len(key))
+//@   requires[clean-value] crlffree(value, len(value))
+//@   modifies h.contentType, h.contentLength, h.contentLengthBytes, h.contentEncoding, h.server, h.cookies, h.connectionClose, h.h, h.trailer
+//@   ensures crlffree(h.contentType, len(h.contentType)) && crlffree(h.contentEncoding, len(h.contentEncoding)) && crlffree(h.server, len(h.server))
+//@ func RequestHeader.setSpecialHeader
+//@   trusted
+//@   requires[clean-key] crlffree(key, len(key))
+//@   requires[clean-value] crlffree(value, len(value))
+//@   modifies h.contentType, h.contentLength, h.contentLengthBytes, h.host, h.userAgent, h.cookies, h.cookiesCollected, h.connectionClose, h.h, h.trailer
+//@   ensures crlffree(h.contentType, len(h.contentType)) && crlffree(h.host, len(h.host)) && crlffree(h.userAgent, len(h.userAgent))
+//@ func RequestHeader.collectCookies
+//@   trusted
+//@   modifies h.cookies, h.cookiesCollected, h.h
+//@ func Cookie.Key
+//@   trusted
+//@   pure
+//@ func Cookie.Cookie
+//@   trusted
+//@   modifies c.bufK
+//@ func RequestHeader.SetContentEncoding
+//@   property C05
+
+//@ func RequestHeader.SetContentEncodingBytes
+//@   property C05
+
+//@ func RequestHeader.SetMultipartFormBoundary
+//@   property C05
+
+//@ func RequestHeader.SetMultipartFormBoundaryBytes
+//@   property C05
+
+//@ func RequestHeader.SetReferer
+//@   property C05
+
+//@ func RequestHeader.SetRefererBytes
+//@   property C05
+
+//@ func RequestHeader.SetProtocol
+//@   property C05
+
+//@ func RequestHeader.SetProtocolBytes
+//@   property C05
+
+//@ func RequestHeader.SetCookie
+//@   property C05
+
+//@ func RequestHeader.SetCookieBytesK
+//@   property C05
+
+//@ func RequestHeader.SetCookieBytesKV
+//@   property C05
+
+//@ func RequestHeader.Add
+//@   property C05
+
+//@ func RequestHeader.AddBytesK
+//@   property C05
+
+//@ func RequestHeader.AddBytesV
+//@   property C05
+
+//@ func RequestHeader.AddBytesKV
+//@   property C05
+
+//@ func RequestHeader.Set
+//@   property C05
+
+//@ func RequestHeader.SetBytesK
+//@   property C05
+
+//@ func RequestHeader.SetBytesV
+//@   property C05
+
+//@ func RequestHeader.SetBytesKV
+//@   property C05
+
+//@ func RequestHeader.SetCanonical
+//@   property C05
+//@   requires[canonical-key-is-clean] crlffree(key, len(key))
+
+//@ func ResponseHeader.SetProtocol
+//@   property C05
+
+//@ func ResponseHeader.Add
+//@   property C05
+
+//@ func ResponseHeader.AddBytesK
+//@   property C05
+
+//@ func ResponseHeader.AddBytesV
+//@   property C05
+
+//@ func ResponseHeader.AddBytesKV
+//@   property C05
+
+//@ func ResponseHeader.Set
+//@   property C05
+
+//@ func ResponseHeader.SetBytesK
+//@   property C05
+
+//@ func ResponseHeader.SetBytesV
+//@   property C05
+
+//@ func ResponseHeader.SetBytesKV
+//@   property C05
+
+//@ func ResponseHeader.SetCanonical
+//@   property C05
+//@   requires[canonical-key-is-clean] crlffree(key, len(key))
+
+//@ func ResponseHeader.SetCookie
+//@   property C05
+
